@@ -23,6 +23,10 @@ structure RefDS where
   keys : Res (List String)
   len : Res Nat
 
+instance : Inhabited RefDS :=
+  ⟨{ indexable := false, outs := [], stream := .nil, kstream := .nil, keys := .error .notImplemented,
+     len := .error .typeError }⟩
+
 /-- flatten `l[i]` on a list of outcomes -/
 def outAt (outs : List (Res Val)) (i : Int) : Res Val :=
   match pyIndex outs i with
@@ -196,5 +200,229 @@ def catch_ (E : List Err) (r : RefDS) : RefDS where
   keys := .error .notImplemented
   len := .error .typeError
 
+/-- the order table entries select positionally from the parts -/
+def intersperse (rs : List RefDS) (order : List OrdEntry) : RefDS where
+  indexable := rs.all (·.indexable)
+  outs := order.map (fun e => match rs[e.d]? with
+    | some r => outAt r.outs (e.j : Int)
+    | none => .error .indexError)
+  stream := intersperseRun (rs.map (·.stream)) order (rs.map (fun _ => 0))
+  kstream := intersperseRun (rs.map (·.kstream)) order (rs.map (fun _ => 0))
+  keys := do
+    let kss ← rs.mapM (·.keys)
+    let ks ← order.mapM (fun e => do
+      let kl ← pyIndex kss (e.d : Int)
+      pyIndex kl (e.j : Int))
+    if hasDup ks then .error .assertionError else .ok ks
+  len := .ok order.length
+
+/-- the example stored under key `k` (first position of `k` in the key table) -/
+def lookup (r : RefDS) (k : String) : Res Val :=
+  match r.keys with
+  | .error e => .error e
+  | .ok ks => match ks.findIdx? (· == k) with
+    | some j => outAt r.outs (j : Int)
+    | none => .error .keyError
+
+def keyZip (rs : List RefDS) : RefDS :=
+  let first := rs.head!
+  let ks := match first.keys with | .ok ks => ks | .error _ => []
+  let rows : List (Res Val) := ks.map (fun k => do
+      let row ← rs.mapM (fun r => lookup r k)
+      .ok (.tup row))
+  { indexable := rs.all (·.indexable)
+    outs := rows
+    stream := match first.keys with
+      | .error e => .fail e
+      | .ok _ => .ofOuts rows
+    kstream := match first.keys with
+      | .error e => .fail e
+      | .ok ks => .ofOuts (ks.map (fun k => do
+          let row ← rs.mapM (fun r => lookup r k)
+          .ok (k, Val.tup row)))
+    keys := first.keys
+    len := first.len }
+
+def parMap (f : Val → Res Val) (b : Nat) (r : RefDS) : RefDS :=
+  { map f r with
+    stream := parMapStream f b r.stream
+    kstream := parMapStream (fun kv => do let v ← f kv.2; .ok (kv.1, v)) b r.kstream }
+
+/-- sequential meaning of prefetch: single worker thread = iterate the input, several workers =
+    evaluate position by position; `catchE` drops the outcomes that fail with a listed class -/
+def prefetch (workers : Nat) (threadBackend : Bool) (catchE : Option (List Err)) (r : RefDS) : RefDS :=
+  let single := workers == 1 && threadBackend
+  { indexable := false
+    outs := []
+    stream :=
+      if single then
+        match catchE with
+        | some E => (catch_ E r).stream
+        | none => r.stream
+      else match r.len with
+        | .error e => .fail e
+        | .ok _ => match catchE with
+          | some E => catchOuts E r.outs
+          | none => .ofOuts r.outs
+    kstream := .nil            -- characterised separately
+    keys := .error .notImplemented
+    len := match catchE with | some _ => .error .typeError | none => r.len }
+
+/-! ### build-time wrappers (they mirror the argument checks of the Python constructors) -/
+
+def mkSlice (spec : SliceSpec) (r : RefDS) : Res RefDS := do
+  if !r.indexable then throw .runtimeError
+  let n ← r.len
+  let sel ← resolveSlice n r.keys spec
+  .ok (slice sel r)
+
+def mkFilterEager (f : Val → Res Bool) (r : RefDS) : Res RefDS := do
+  if !r.indexable then throw .runtimeError
+  let vs ← streamToRes r.stream
+  let idx ← filterIdx f vs 0
+  let _ ← r.len
+  mkSlice (.idx (idx.map Int.ofNat)) r
+
+def mkSplit (k : Int) (r : RefDS) : Res (List RefDS) := do
+  if k < 1 then throw .valueError
+  let n ← r.len
+  if k > n then throw .valueError
+  let kk := k.toNat
+  (List.range kk).mapM (fun i => mkSlice (.idx ((sectionIdx n kk i).map Int.ofNat)) r)
+
+def mkShard (k i : Int) (r : RefDS) : Res RefDS := do
+  let parts ← mkSplit k r
+  pyIndex parts i
+
+def mkShuffleOnce (perm : List Nat) (r : RefDS) : Res RefDS := do
+  let n ← r.len
+  let perm := if perm.length == n then perm else List.range n
+  mkSlice (.idx (perm.map Int.ofNat)) r
+
+def mkSort (keyFn : Option (Val → Res Val)) (reverse : Bool) (r : RefDS) : Res RefDS :=
+  match keyFn with
+  | none =>
+    match r.keys with
+    | .error e => if e == .notImplemented then .error .runtimeError else .error e
+    | .ok ks => mkSlice (.keys (sortKeys ks reverse)) r
+  | some f => do
+    let vs ← streamToRes r.stream
+    let kv ← vs.mapM f
+    match asInts kv with
+    | some is => mkSlice (.idx ((sortOrderBy intLt is reverse).map Int.ofNat)) r
+    | none =>
+      match asStrs kv with
+      | some ss => mkSlice (.idx ((sortOrderBy strLt ss reverse).map Int.ofNat)) r
+      | none =>
+        if kv.length ≤ 1 then mkSlice (.idx ((List.range kv.length).map Int.ofNat)) r
+        else .error .typeError
+
+def mkTile (reps : Nat) (r : RefDS) : Res RefDS :=
+  match reps with
+  | 0 => .error .typeError
+  | 1 => .ok r
+  | n => .ok (concat (List.replicate n r))
+
+def mkConcat : List RefDS → Res RefDS
+  | [] => .error .valueError
+  | [r] => .ok r
+  | rs => .ok (concat rs)
+
+def allLens : List RefDS → Res (List Nat)
+  | [] => .ok []
+  | r :: rs => do let a ← r.len; let b ← allLens rs; .ok (a :: b)
+
+def mkIntersperse (rs : List RefDS) : Res RefDS := do
+  if rs.isEmpty then throw .assertionError
+  let lens ← allLens rs
+  if lens.any (· == 0) then throw .assertionError
+  .ok (intersperse rs (intersperseOrder lens))
+
+def mkZip (rs : List RefDS) : Res RefDS := do
+  if rs.isEmpty then throw .assertionError
+  let lens ← allLens rs
+  if !allEq lens then throw .assertionError
+  .ok (zip rs)
+
+def mkKeyZip (rs : List RefDS) : Res RefDS := do
+  if rs.length < 2 then throw .assertionError
+  let kss ← rs.mapM (·.keys)
+  if !sameKeySets kss then throw .assertionError
+  .ok (keyZip rs)
+
+def mkCache (r : RefDS) : Res RefDS :=
+  if r.indexable then .ok (cache r) else .error .assertionError
+
+def mkPrefetch (workers buffer : Nat) (threadBackend : Bool) (catchE : Option (List Err)) (r : RefDS) : Res RefDS := do
+  if !(workers == 1 && threadBackend) then
+    match r.len with
+    | .error _ => throw .runtimeError
+    | .ok _ => pure ()
+  if workers < 1 then throw .assertionError
+  if buffer < workers then throw .assertionError
+  .ok (prefetch workers threadBackend catchE r)
+
+/-- eager cache = materialise now: a list source, or a dict source when items() is defined and keys are unique -/
+def mkCacheEager (r : RefDS) (ordered : Bool) : Res RefDS := do
+  if !(r.indexable || ordered) then throw .assertionError
+  let s := r.kstream
+  match s.err with
+  | some e =>
+    if e == .itemsNotDefinedInternal then
+      let vs ← streamToRes r.stream
+      .ok (listSrc vs)
+    else .error e
+  | none =>
+    if hasDup (s.vals.map (·.1)) then .ok (listSrc (s.vals.map (·.2)))
+    else .ok (dictSrc s.vals)
+
 end Ref
+
+/-! ### the reference semantics of a pipeline -/
+
+mutual
+def ref (ρ : Env) : Pipeline → Res RefDS
+  | .listSrc xs => .ok (Ref.listSrc xs)
+  | .dictSrc kvs => .ok (Ref.dictSrc kvs)
+  | .map f p => do let r ← ref ρ p; .ok (Ref.map (ρ.fn f) r)
+  | .parMap f w b p => do
+      let r ← ref ρ p
+      if w == 0 then .ok (Ref.map (ρ.fn f) r) else .ok (Ref.parMap (ρ.fn f) b r)
+  | .filterLazy f p => do let r ← ref ρ p; .ok (Ref.filter (ρ.pred f) r)
+  | .filterEager f p => do let r ← ref ρ p; Ref.mkFilterEager (ρ.pred f) r
+  | .slice s p => do let r ← ref ρ p; Ref.mkSlice s r
+  | .concat ps => do let rs ← refAll ρ ps; Ref.mkConcat rs
+  | .intersperse ps => do
+      let rs ← refAll ρ ps
+      match rs with
+      | [] => .error .valueError
+      | [r] => .ok r
+      | rs => Ref.mkIntersperse rs
+  | .zip ps => do
+      let rs ← refAll ρ ps
+      if rs.isEmpty then .error .valueError else Ref.mkZip rs
+  | .keyZip ps => do
+      let rs ← refAll ρ ps
+      if rs.isEmpty then .error .valueError else Ref.mkKeyZip rs
+  | .batch n dl p => do let r ← ref ρ p; .ok (Ref.batch n dl r)
+  | .unbatch p => do let r ← ref ρ p; .ok (Ref.unbatch r)
+  | .items p => do let r ← ref ρ p; .ok (Ref.items r)
+  | .tile n p => do let r ← ref ρ p; Ref.mkTile n r
+  | .shuffleOnce perm p => do let r ← ref ρ p; Ref.mkShuffleOnce perm r
+  | .sort key rev p => do let r ← ref ρ p; Ref.mkSort (key.map ρ.fn) rev r
+  | .shard k i p => do let r ← ref ρ p; Ref.mkShard k i r
+  | .cache p => do let r ← ref ρ p; Ref.mkCache r
+  | .cacheEager p => do let r ← ref ρ p; Ref.mkCacheEager r true
+  | .catch E p => do let r ← ref ρ p; .ok (Ref.catch_ E r)
+  | .copy _ p => ref ρ p
+  | .prefetch w b t ce p => do let r ← ref ρ p; Ref.mkPrefetch w b t ce r
+  | .cycle p => ref ρ p
+def refAll (ρ : Env) : Pipelines → Res (List RefDS)
+  | .nil => .ok []
+  | .cons p ps => do
+      let r ← ref ρ p
+      let rs ← refAll ρ ps
+      .ok (r :: rs)
+end
+
 end LazyDs
